@@ -22,7 +22,7 @@ EXTRACT = "coq/C03/Extract_C03.v"
 DRIVER = "props/C03/driver.ml"
 PROGS = {"c03sim": ["props/C03/unit.cpp"]}
 
-MODELLED = ("restraint", "histogram", "extlag", "abmd", "abf", "meta", "eabf", "histrestraint")
+MODELLED = ("restraint", "histogram", "extlag", "abmd", "abf", "meta", "eabf", "histrestraint", "alb")
 
 # (family, cases quick, cases thorough, history length quick, thorough)
 PLAN = [
@@ -36,7 +36,7 @@ PLAN = [
     ("histrestraint", 3, 30, 10, 30),
     ("multi", 4, 40, 10, 30),
     ("runave", 2, 10, 10, 20),
-    ("alb", 2, 10, 10, 20),
+    ("alb", 6, 40, 14, 30),
     ("opes", 4, 30, 12, 24),
     ("pabf", 2, 16, 10, 24),
     ("mts", 6, 60, 12, 30),
